@@ -9,6 +9,7 @@ import JumanjiModel.Env.GraphColoring.Lemmas
 import JumanjiModel.Env.GraphColoring.Bounds
 import JumanjiModel.Env.GraphColoring.EpisodeLemmas
 import JumanjiModel.Env.GraphColoring.GenLemmas
+import JumanjiModel.Env.GraphColoring.SpecLemmas
 open Jm GraphColoring
 
 namespace Props.C04
@@ -33,6 +34,27 @@ theorem graph_coloring_reset_inv (n : Nat) (adj : List (List Bool)) (hn : 0 < n)
 theorem graph_coloring_step_agrees (n : Nat) (s : State) (a : Nat) (h : Inv n s) (ha : a < n) :
     (!(Jx.getWC s.mask false (a : Int))) = true ↔ ¬ legal n s a :=
   GraphColoring.invalid_iff_not_legal n s a h ha
+
+/-- (wave 3; the statement above is about the L1 flag `invalid_action_taken`, not about what `step` returns) the reaction of
+`step` ITSELF, on every state with the invariant and every colour of the action space: an illegal colour gives LAST with
+reward `−num_nodes`; a legal one gives reward 0 and MID, or — exactly when it completes the colouring — LAST with minus the
+number of colours used; hence, unless the step completes the colouring, it is LAST IFF the colour was illegal.  (On the
+completing step the two cases cannot be told apart from the timestep alone when all `n` colours are in use — e.g. the
+complete graph —: both give LAST with reward `−n`; `graph_coloring_legal_iff_step_feasible` below separates them by the
+successor state.) -/
+theorem graph_coloring_step_reaction (n : Nat) (s : State) (a : Nat) (h : Inv n s) (ha : a < n) :
+    (¬ legal n s a → (step n s a).2.stepType = .last ∧ (step n s a).2.reward = [-((n : Nat) : Rat)]) ∧
+    (legal n s a →
+      ((step n s a).2.stepType = .last ↔ ∀ c ∈ (step n s a).1.colors, 0 ≤ c) ∧
+      (step n s a).2.reward = [if ∀ c ∈ (step n s a).1.colors, 0 ≤ c then objective (step n s a).1 else 0]) ∧
+    ((∃ c ∈ (step n s a).1.colors, c < 0) → ((step n s a).2.stepType = .last ↔ ¬ legal n s a)) :=
+  GraphColoring.step_reaction n s a h ha
+
+/-- … and by the successor state, in every case: in a proper partial colouring of a generated (symmetric, loop-free) graph
+the rules allow colour `a` for the current node IFF the successor state of `step` is again a proper colouring -/
+theorem graph_coloring_legal_iff_step_feasible (n : Nat) (s : State) (a : Nat) (h : Inv n s) (hg : GraphOK n s.adj)
+    (hf : Feasible n s) (ha : a < n) : legal n s a ↔ Feasible n (step n s a).1 :=
+  GraphColoring.legal_iff_step_feasible n s a h hg hf ha
 
 /-- the invariant is preserved by every step (any in-spec action) -/
 theorem graph_coloring_inv_step (n : Nat) (s : State) (a : Int) (h : WF n s) (ha : -1 ≤ a) :
@@ -80,9 +102,18 @@ theorem graph_coloring_complete_is_solution (n : Nat) (s : State) (a : Int) (hw 
     (hlast : (step n s a).2.stepType = .last) : IsSolution n (step n s a).1 :=
   GraphColoring.complete_is_solution n s a hw hf hv hlast
 
+/-- (wave 3; the statement above ASSUMES the successor proper) completion THROUGH `step`: in a proper partial colouring of a
+symmetric loop-free graph (both hold in every state of mask-respecting play from `reset`:
+`graph_coloring_reachable_invariants`), a LEGAL colour whose step is LAST produces a complete proper colouring -/
+theorem graph_coloring_step_complete_is_solution (n : Nat) (s : State) (a : Nat) (h : Inv n s) (hg : GraphOK n s.adj)
+    (hf : Feasible n s) (hl : legal n s a) (hlast : (step n s a).2.stepType = .last) :
+    IsSolution n (step n s a).1 := GraphColoring.step_complete_is_solution n s a h hg hf hl hlast
+
 example : GraphOK 3 [[false, true, true], [true, false, true], [true, true, false]] := by decide
 example : Feasible 3 ⟨[[false, true, true], [true, false, true], [true, true, false]], [0, 1, -1], 2,
     [false, false, true]⟩ := by decide
+example : (step 3 ⟨[[false, true, true], [true, false, true], [true, true, false]], [0, 1, -1], 2,
+    [false, false, true]⟩ 2).2.stepType = .last := by decide +kernel
 /-- whole episodes from ANY well-formed state with a symmetric loop-free graph and a proper partial colouring,
 along ANY sequence of colours each legal at its turn: the colouring is proper after every prefix (also past the end
 of the episode, where the current node wraps around and nodes are re-coloured) -/
@@ -220,6 +251,30 @@ theorem graph_coloring_progress (n : Nat) (s : State) (a : Int) (hw : WF n s) (h
     (ha : 0 ≤ a) (hnl : (step n s a).2.stepType ≠ .last) :
     (step n s a).1.cur = s.cur + 1 ∧ s.cur + 1 < n ∧ PrefixColoured (step n s a).1 :=
   GraphColoring.progress n s a hw hp ha hnl
+
+open Ep in
+/-- (wave 3) EPISODE level, never later: from `reset` on ANY `n × n` adjacency matrix (`n ≥ 1`), whatever non-negative action
+values are played — legal or not, in the action space or beyond — (at least `n` of them; `rollout` = the L1 `step` iterated
+without stopping at LAST, `firstLastTS` = 1-based index of the first LAST timestep, as the harness measures it), the first
+LAST timestep comes at some step `k` with `0 < k ≤ num_nodes` -/
+theorem graph_coloring_episode_ends_within_n (n : Nat) (hn : 0 < n) (adj : List (List Bool)) (hadj : adj.length = n)
+    (hrows : ∀ row ∈ adj, row.length = n) (as : List Int) (hpos : ∀ a ∈ as, 0 ≤ a) (hlen : n ≤ as.length) :
+    ∃ k, firstLastTS ((rollout (step n) (reset n adj).1 as).map (·.2)) = some k ∧ 0 < k ∧ k ≤ n :=
+  GraphColoring.ends_within n n _ as (GraphColoring.reset_Inv n adj hn hadj hrows).1
+    (GraphColoring.reset_prefixColoured n adj) (by simp [reset]) hn hpos hlen
+
+open Ep in
+/-- never earlier: under LEGAL play (each colour legal at its turn — equivalently mask-respecting, `allMasked_allLegal`) the
+first LAST timestep is number `num_nodes` EXACTLY: the structural horizon is attained -/
+theorem graph_coloring_legal_episode_ends_exactly_at_n (n : Nat) (hn : 0 < n) (adj : List (List Bool))
+    (hadj : adj.length = n) (hrows : ∀ row ∈ adj, row.length = n) (as : List Nat)
+    (hal : AllLegal n (reset n adj).1 as) (hlen : n ≤ as.length) :
+    firstLastTS ((rollout (step n) (reset n adj).1 (as.map (fun (a : Nat) => (a : Int)))).map (·.2)) = some n :=
+  GraphColoring.legal_ends_exactly n n _ as (GraphColoring.reset_Inv n adj hn hadj hrows)
+    (GraphColoring.reset_prefixColoured n adj) (GraphColoring.reset_fresh n adj) (by simp [reset]) hn hal hlen
+
+example : AllLegal 3 (reset 3 [[false, true, true], [true, false, true], [true, true, false]]).1 [0, 1, 2] := by
+  simp only [AllLegal]; decide +kernel
 end Props.C11
 
 namespace Props.C12
@@ -258,4 +313,76 @@ example : ¬ InRange 3 (step 3 ⟨[[false, true, true], [true, false, true], [tr
     [false, false, true]⟩ 7).1 := by decide
 example : InRange 3 ⟨[[false, true, true], [true, false, true], [true, true, false]], [0, 1, -1], 2,
     [false, false, true]⟩ := by decide
+
+/-! #### (wave 3) membership in the DECLARED specs: structure, shapes, dtypes and bounds -/
+open Sp PzS PzS3
+
+/-- the model's `obsSpec` / `actionSpec` / reward and discount specs ARE the specs generated from the real spec objects
+(Gen/Specs.lean) for the catalogue configuration of GraphColoring (8 nodes) -/
+theorem graph_coloring_obsSpec_generated :
+    prefixed "observation_spec." (obsSpec 8) = declared "graphcoloring-8" "observation_spec." ∧
+    [("action_spec", actionSpec 8)] = declared "graphcoloring-8" "action_spec" ∧
+    [("reward_spec", rewardSpec)] = declared "graphcoloring-8" "reward_spec" ∧
+    [("discount_spec", discountSpec)] = declared "graphcoloring-8" "discount_spec" := by
+  refine ⟨by decide, by decide, by decide, by decide⟩
+
+/-- the `reset` observation — every `n ≥ 1`, EVERY thresholded draw `B` of the generator — is accepted by
+`observation_spec.validate`: fields `adj_matrix`, `action_mask`, `colors`, `current_node_index`; shapes `(n, n)`, `(n,)`,
+`(n,)`, `()`; dtypes bool, bool, int32, int32; bounds [0,1], [0,1], [−1, n−1], [0, n−1] -/
+theorem graph_coloring_reset_obs_valid (n : Nat) (hn : 0 < n) (B : List (List Bool)) :
+    (obsSpec n).valid (toNValue (reset n (generate n B)).2.obs) = true :=
+  GraphColoring.reset_obs_valid n _ hn (GraphColoring.generate_ok n B).1 (GraphColoring.generate_ok n B).2.1
+
+/-- the same for every `step` observation from a state satisfying `SpecInv` (shapes, colours in [−1, n−1], current node in
+[0, n−1], `n` mask entries) and every colour of the action space, legal or not, the terminal step included -/
+theorem graph_coloring_step_obs_valid (n : Nat) (s : State) (a : Int) (h : SpecInv n s) (ha : 0 ≤ a ∧ a < n) :
+    (obsSpec n).valid (toNValue (step n s a).2.obs) = true :=
+  GraphColoring.step_obs_valid n s a h ⟨by omega, ha.2⟩
+
+/-- `SpecInv` holds after `reset` on every generated graph, is preserved by every in-spec step, and therefore holds in
+EVERY state of EVERY play of colours of the action space from `reset` (also after LAST, where the current node wraps round) -/
+theorem graph_coloring_specInv_invariant (n : Nat) (hn : 0 < n) (B : List (List Bool)) :
+    SpecInv n (reset n (generate n B)).1 ∧
+    (∀ (s : State) (a : Int), SpecInv n s → (0 ≤ a ∧ a < n) → SpecInv n (step n s a).1) ∧
+    (∀ as : List Nat, (∀ a ∈ as, a < n) → SpecInv n (runState n (reset n (generate n B)).1 as)) := by
+  have h0 := GraphColoring.reset_specInv n _ hn (GraphColoring.generate_ok n B).1 (GraphColoring.generate_ok n B).2.1
+  exact ⟨h0, fun s a h ha => GraphColoring.step_specInv n s a h ⟨by omega, ha.2⟩,
+    fun as ha => GraphColoring.runState_specInv n _ as h0 ha⟩
+
+/-- … so every observation of every such episode is a member of the spec -/
+theorem graph_coloring_episode_obs_valid (n : Nat) (hn : 0 < n) (B : List (List Bool)) (as : List Nat)
+    (has : ∀ a ∈ as, a < n) (a : Nat) (ha : a < n) :
+    (obsSpec n).valid (toNValue (step n (runState n (reset n (generate n B)).1 as) (a : Int)).2.obs) = true :=
+  GraphColoring.step_obs_valid n _ _ ((graph_coloring_specInv_invariant n hn B).2.2 as has) ⟨by omega, by omega⟩
+
+/-- what membership means: `validate` accepts ONLY observations with an `(n, n)` matrix, `n` mask entries, `n` colours in
+[−1, n−1] and a current node in [0, n−1] -/
+theorem graph_coloring_obs_valid_only (n : Nat) (o : Obs) (h : (obsSpec n).valid (toNValue o) = true) :
+    gridShape o.adj = [n, n] ∧ o.mask.length = n ∧ o.colors.length = n ∧
+    (∀ c ∈ o.colors, -1 ≤ c ∧ c ≤ ((n : Nat) : Int) - 1) ∧ 0 ≤ o.cur ∧ o.cur ≤ ((n : Nat) : Int) - 1 :=
+  GraphColoring.obs_valid_only n o h
+
+example : SpecInv 3 ⟨[[false, true, true], [true, false, true], [true, true, false]], [0, 1, -1], 2, [false, false, true]⟩ ∧
+    (obsSpec 3).valid (toNValue (step 3 ⟨[[false, true, true], [true, false, true], [true, true, false]], [0, 1, -1], 2,
+      [false, false, true]⟩ 7).2.obs) = false := by
+  refine ⟨by decide, by decide +kernel⟩
+
+/-- reward and discount of every `step` (ALL states, ALL action values) and of `reset` are accepted by `reward_spec`
+(Array((), float)) and `discount_spec` (BoundedArray((), float, 0, 1)) -/
+theorem graph_coloring_reward_discount_valid (n : Nat) (s : State) (a : Int) (adj : List (List Bool)) :
+    rewardSpec.valid (scalarArr (step n s a).2.reward) = true ∧
+    discountSpec.valid (scalarArr (step n s a).2.discount) = true ∧
+    rewardSpec.valid (scalarArr (reset n adj).2.reward) = true ∧
+    discountSpec.valid (scalarArr (reset n adj).2.discount) = true :=
+  ⟨(GraphColoring.step_reward_discount_valid n s a).1, (GraphColoring.step_reward_discount_valid n s a).2,
+   (restart_reward_discount_valid _).1, (restart_reward_discount_valid _).2⟩
+
+/-- `action_spec.generate_value()` = colour 0: for every `n ≥ 1` the action spec is well-formed, the generated value is a
+member of it, and `step` answers it in every state satisfying `SpecInv` with a protocol-conform timestep whose observation
+is a member of `observation_spec` -/
+theorem graph_coloring_accepts_generate_value (n : Nat) (hn : 0 < n) (hbig : n ≤ 2147483648) (s : State)
+    (h : SpecInv n s) :
+    (actionSpec n).WF = true ∧ (actionSpec n).valid (actionSpec n).generate = true ∧
+    (actionSpec n).generate = actionArr 0 ∧ StepOK none false (step n s 0).2 = true ∧
+    (obsSpec n).valid (toNValue (step n s 0).2.obs) = true := GraphColoring.accepts_generate_value n hn hbig s h
 end Props.C01
